@@ -83,6 +83,14 @@ class FilesystemIsolation(ContextDecorator):
                 self._created.discard(self._abspath(p))
 
     @staticmethod
+    def _exists(path: os.PathLike | str | None) -> bool:
+        """Whether the path exists right now; only paths that do not are ours to clean up."""
+        try:
+            return path is not None and os.path.lexists(path)
+        except (TypeError, ValueError):
+            return True  # file descriptors and the like
+
+    @staticmethod
     def _is_write_mode(mode: str) -> bool:
         """Check if a mode is write mode."""
         return any(ch in mode for ch in ("w", "a", "x", "+"))
@@ -118,17 +126,21 @@ class FilesystemIsolation(ContextDecorator):
                 if abs_forget not in self._created:
                     raise PermissionError(f"Attempted to modify non-isolated path: {abs_forget}")
 
+            rec = self._get_arg(args, kwargs, record_arg_idx)
+            dst = self._get_arg(args, kwargs, record_dst_idx)
+            # paths that exist before the call are not created by it
+            fresh = [p for p in (rec, dst) if not self._exists(p)]
+
             res = original_func(*args, **kwargs)
 
             try:
-                rec = self._get_arg(args, kwargs, record_arg_idx)
-                dst = self._get_arg(args, kwargs, record_dst_idx)
-                self._record_created(rec, dst)
+                self._record_created(*fresh)
             except Exception:  # noqa: BLE001
                 _LOGGER.warning("Failed to update bookkeeping for %s", original_func)
 
             try:
-                self._forget(forget_path)
+                if not self._exists(forget_path):
+                    self._forget(forget_path)
             except Exception:  # noqa: BLE001
                 _LOGGER.warning("Failed to forget path: %s", forget_path)
 
@@ -145,8 +157,9 @@ class FilesystemIsolation(ContextDecorator):
             # second positional arg may be mode, or kwargs['mode']
             file_arg = args[0] if args else kwargs.get("file")
             mode = kwargs.get("mode", args[1] if len(args) > 1 else "r")
+            creates = isinstance(mode, str) and self._is_write_mode(mode) and not self._exists(file_arg)
             f = original_func(*args, **kwargs)
-            if isinstance(mode, str) and self._is_write_mode(mode):
+            if creates:
                 try:
                     self._record_created(file_arg)
                 except Exception:  # noqa: BLE001
@@ -171,7 +184,7 @@ class FilesystemIsolation(ContextDecorator):
 
         @functools.wraps(original_func)
         def tracked_os_open(path, flags, *args, **kwargs):
-            should_record = bool(flags & write_flags)
+            should_record = bool(flags & write_flags) and not self._exists(path)
             fd = original_func(path, flags, *args, **kwargs)
             if should_record:
                 try:
@@ -190,10 +203,13 @@ class FilesystemIsolation(ContextDecorator):
             abs_path = self._abspath(path_self)
             if abs_path not in self._created:
                 raise PermissionError(f"Attempted to rename/replace non-isolated path: {abs_path}")
+            target_existed = self._exists(target)
             res = original_func(path_self, target)
             try:
-                self._forget(path_self)
-                self._record_created(res)
+                if not self._exists(path_self):
+                    self._forget(path_self)
+                if not target_existed:
+                    self._record_created(res)
             except Exception:  # noqa: BLE001
                 _LOGGER.warning(
                     "Failed to update bookkeeping for rename/replace: %s -> %s", path_self, target
